@@ -216,6 +216,9 @@ def _remove_variants(doc, item_idx, field_idxs):
 
 
 def enabled(doc, op):
+    if op[0] == "tset":
+        ps = pars(doc)
+        return op[1] < len(ps) and len(occ(ps[op[1]], op[2])) == 1 and op[3] not in INVALID_VALUES
     if must_reject(doc, op):
         return True
     t = op[0]
@@ -258,6 +261,12 @@ INVALID_VALUES = ("x\ny", "x\n\n y")
 
 
 def must_reject(doc, op):
+    if op[0] == "tset":
+        return False
+    return _must_reject(doc, op)
+
+
+def _must_reject(doc, op):
     """operations the implementation has to refuse (or may refuse): an assignment whose value is not a valid field
     value, or an operation naming an absent field / absent reference / out-of-range occurrence / itself.
     If the implementation raises, the document must be what it was."""
@@ -287,6 +296,8 @@ def must_reject(doc, op):
 
 def step(doc, op, new_par_fields=None):
     """-> list of (candidate doc, wildcard) ; wildcard = None | (name_as_it_must_be_spelled, expected value)"""
+    if op[0] == "tset":
+        op = ("set",) + tuple(op[1:])
     t = op[0]
     if t in ("insert", "append"):
         return _insert(doc, op, new_par_fields)
@@ -413,10 +424,28 @@ def model_view(doc):
 
 # ---------------------------------------------------------------- implementation side
 
+_TOKENS = {}
+
+
 def parse_impl(text):
     from debian._deb822_repro import parse_deb822_file
-    return parse_deb822_file(text.splitlines(True), accept_files_with_error_tokens=True,
-                             accept_files_with_duplicated_fields=True)
+    f = parse_deb822_file(text.splitlines(True), accept_files_with_error_tokens=True,
+                          accept_files_with_duplicated_fields=True)
+    _TOKENS.clear()
+    _TOKENS["file"] = f
+    return f
+
+
+def field_token(f, pi, name):
+    """the field-name token of (paragraph, name) as it was when first asked for in this history - later uses hand
+    the library the same (by then possibly replaced) token object, which the key type permits"""
+    if _TOKENS.get("file") is not f:
+        _TOKENS.clear()
+        _TOKENS["file"] = f
+    k = (pi, name.lower())
+    if k not in _TOKENS:
+        _TOKENS[k] = list(f)[pi].get_kvpair_element(name).field_token
+    return _TOKENS[k]
 
 
 def build_par(fields):
@@ -448,6 +477,8 @@ def apply_impl(f, op):
         p.order_after(op[2], op[3])
     elif t == "set":
         p[op[2]] = op[3]
+    elif t == "tset":
+        p[field_token(f, op[1], op[2])] = op[3]
     elif t == "del":
         del p[op[2]]
     else:
@@ -514,6 +545,8 @@ def live_check(f, doc):
 
 
 def op_kind(doc, op):
+    if op[0] == "tset":
+        return "set-by-token"
     kind = op[0]
     if kind == "set" and not occ(pars(doc)[op[1]], _key(op[2])[0]):
         kind = "add"
@@ -526,7 +559,7 @@ def outcome_class(doc, op):
     if must_reject(doc, op):
         return op[0] + "/refused"
     k = op_kind(doc, op)
-    if k in ("set", "add", "set-indexed"):
+    if k in ("set", "add", "set-indexed", "set-by-token"):
         k += "/multi-line" if "\n" in op[3] else "/single-line"
     if not render(doc).endswith("\n"):
         k += "/unterminated-doc"
